@@ -154,6 +154,20 @@ func genC10(seed uint64, run int, tier string) *RunSpec {
 	for i := 0; i < n; i++ {
 		spec.Ops = append(spec.Ops, distinct[r.Intn(len(distinct))])
 	}
+	// "before or after any other renders, successful or FAILED": in a fifth of the histories some renders are hit
+	// by a writer failure, a cancellation or an fs fault. Such a render is not itself compared; every other one is.
+	if r.Chance(20) {
+		for i := range spec.Ops {
+			switch r.Intn(8) {
+			case 0:
+				spec.Ops[i].Writer = WriterSpec{FailAt: r.Intn(200), Form: r.Intn(3)}
+			case 1:
+				spec.Ops[i].Ctx = CtxSpec{CancelAtPoll: 1 + r.Intn(3)}
+			case 2:
+				spec.Faults = append(spec.Faults, FaultSpec{Op: i, N: 1 + r.Intn(6), Kind: Pick(r, faultKinds), Arg: r.Intn(100)})
+			}
+		}
+	}
 	spec.Files = g.FileSpecs(1_700_000_000_000_000_000)
 	spec.Engine = randomEngine(r, g.Eng)
 	spec.Engine.BaseFill = &DataSpec{Shape: Pick(r, []string{"map", "struct"}), Tag: "zzbzz", Items: 2, Flag: true, Variant: 1}
@@ -203,7 +217,10 @@ func opKey(op OpSpec) string {
 
 func execC10(spec *RunSpec) *Result {
 	res := &Result{Run: spec.Run}
-	outs, rep, _ := runHistory(spec, spec.Kernel)
+	outs, rep, hfs := runHistory(spec, spec.Kernel)
+	for k, v := range hfs.Fired() {
+		res.addStat("fault_fs_"+k, v)
+	}
 	res.addStat("cases", int64(len(spec.Ops)))
 	res.addStat("steps", rep.Steps)
 	res.addStat("pool_reused", rep.PoolReused)
@@ -230,6 +247,20 @@ func execC10(spec *RunSpec) *Result {
 		if o.Panic != "" || o.Overrun {
 			res.addStat("c11_class_events", 1)
 			noteCrash(res, spec, i, op, o)
+		}
+		faulted := op.Writer.FailAt >= 0 || op.Ctx.Pre || op.Ctx.CancelAtPoll > 0 || hfs.Faulted(i)
+		if faulted {
+			res.addStat("faulted_renders", 1)
+			if o.WriterFired {
+				res.addStat("fault_writer_fired", 1)
+			}
+			if o.Cancelled {
+				res.addStat("fault_ctx_cancel_fired", 1)
+			}
+			if o.DataChanged != "" {
+				res.violate("C10", "caller-data-mutated", "caller data mutated by "+op.Entry, "op %d (%s, faulted): the caller's data changed: %s", i, op.Entry, o.DataChanged)
+			}
+			continue
 		}
 		key := opKey(op)
 		ref, ok := refs[key]
